@@ -174,6 +174,16 @@ def recursion_bound(ctx, res):
         for fs, reason in BOUNDED_BY_CONSTRUCTION.items():
             if set(comp) <= fs:
                 why = reason
+        if why is None:
+            # the same recursion with a step extracted into a helper: the
+            # additional members are validator helpers (validate_*) and the
+            # cycle still runs through the documented core
+            for fs, reason in BOUNDED_BY_CONSTRUCTION.items():
+                extra = set(comp) - fs
+                if set(comp) & fs and extra and all(
+                        f.startswith("validate_") for f in extra):
+                    why = reason + " (with extracted helper(s) " \
+                        + ", ".join(sorted(extra)) + ")"
         if why:
             res.note(f"{key}: bounded by construction - {why}")
             res.oblige(True, key, "", "")
